@@ -153,7 +153,8 @@ pub struct Case {
     pub cfg: Config,
     /// scope() calls made before into_iter (position indexes), last one wins; empty = unscoped
     pub scopes: Vec<(u16, u16)>,
-    pub extra_next: u8,
+    /// next() calls made after the first None (each must return None)
+    pub extra_next: u32,
 }
 
 #[derive(Clone, Debug, Serialize, Deserialize)]
@@ -195,9 +196,12 @@ pub fn check_case(c: &Case) -> CheckResult {
     if c.scopes.is_empty() {
         cls |= 128;
     }
+    if c.extra_next >= 100 {
+        cls |= 256;
+    }
     Ok(Outcome::new(cls & 0b1111 != 0, fp_of(&format!("{:?}", c)), cls))
 }
-const CASE_CLASSES: &[&str] = &["row_rollover_inside", "empty_position_at_edge", "empty_window", "ends_at_terminal", "starts_mid_row", "multi_combo_ranges", "repeated_scope_calls", "no_scope_call"];
+const CASE_CLASSES: &[&str] = &["row_rollover_inside", "empty_position_at_edge", "empty_window", "ends_at_terminal", "starts_mid_row", "multi_combo_ranges", "repeated_scope_calls", "no_scope_call", "hundred_plus_calls_after_exhaustion"];
 
 pub fn check_chain(c: &ChainCase) -> CheckResult {
     vensure!(c.cfg.valid() && c.cfg.scope.is_none() && c.cuts.windows(2).all(|w| w[0] <= w[1]) && c.cuts.iter().all(|x| *x <= 1176), "bad-case", "invalid chain");
@@ -278,7 +282,7 @@ pub fn window_strategy() -> impl Strategy<Value = (u16, u16)> {
 }
 
 pub fn case_strategy() -> impl Strategy<Value = Case> {
-    (cfg_strategy(), proptest::collection::vec(window_strategy(), 0..=3), 0u8..4).prop_map(|(cfg, scopes, extra_next)| Case { cfg, scopes, extra_next })
+    (cfg_strategy(), proptest::collection::vec(window_strategy(), 0..=3), prop_oneof![6 => 0u32..4, 2 => 4u32..400, 1 => 400u32..20_000]).prop_map(|(cfg, scopes, extra_next)| Case { cfg, scopes, extra_next })
 }
 pub fn chain_strategy() -> impl Strategy<Value = ChainCase> {
     (cfg_strategy(), proptest::collection::vec(pos_strategy(), 0..64)).prop_map(|(cfg, mut cuts)| {
@@ -313,7 +317,7 @@ pub fn run(ctx: &mut Ctx) {
         assert_eq!(pos_index(p.0, p.1) as usize, i);
         assert_eq!(index_pos(i as u16), *p);
     }
-    ctx.rule = "positions = the 1176 (turn<river) deck-index pairs + terminal. (1) exhaustive: for fixed configurations, every ordered pair from <= to of the 1177 positions (693,253 windows each; quick 2 configurations, thorough 6) - the scoped run must equal the unscoped run's window position by position (multiset inside a position), be exhausted afterwards (3 more next() calls). (2) proptest histories: small generated configurations (pool/free ranges, players holding the first/last deck cards so head rows / the tail are empty, no players), 0-3 scope() calls before iteration (last wins), windows biased to row starts/ends/terminal/empty/one-position, next() after exhaustion. (3) proptest chains: 0-63 sorted cut points (duplicates = empty scopes), every link compared and the concatenation compared with the full run. (4) windows over 3 ranges of 300-1326 combos (or 4 of up to 160) (more than 2^32 odometer slots, cannot be drained): the first showdowns must lie inside the window, in position order, start at the first position with a legal deal and be as many as the window provably holds. Non-trivial = window contains a row rollover, has an empty position at an edge, is empty or ends at the terminal (chains: >= 1 cut); distinct by (configuration, window/cuts).".into();
+    ctx.rule = "positions = the 1176 (turn<river) deck-index pairs + terminal. (1) exhaustive: for fixed configurations, every ordered pair from <= to of the 1177 positions (693,253 windows each; quick 2 configurations, thorough 6) - the scoped run must equal the unscoped run's window position by position (multiset inside a position), be exhausted afterwards (3 more next() calls). (2) proptest histories: small generated configurations (pool/free ranges, players holding the first/last deck cards so head rows / the tail are empty, no players), 0-3 scope() calls before iteration (last wins), windows biased to row starts/ends/terminal/empty/one-position, next() after exhaustion (0-3 calls mostly, up to 20,000). (3) proptest chains: 0-63 sorted cut points (duplicates = empty scopes), every link compared and the concatenation compared with the full run. (4) windows over 3 ranges of 300-1326 combos (or 4 of up to 160) (more than 2^32 odometer slots, cannot be drained): the first showdowns must lie inside the window, in position order, start at the first position with a legal deal and be as many as the window provably holds. Non-trivial = window contains a row rollover, has an empty position at an edge, is empty or ends at the terminal (chains: >= 1 cut); distinct by (configuration, window/cuts).".into();
     ctx.assumptions = vec![
         "only valid positions (t<r<=48 or (48,49)) with from <= to are generated; aliases like (47,49) are outside the statement".into(),
         "showdowns are compared through a 64-bit fingerprint of board, hole cards, power indexes, winner flags, winner_len and probability bits".into(),
